@@ -107,6 +107,7 @@ def run(tier, seed):
     chk.count('work_units', len(units))
     for part in pmap(ex.run_unit, units):
         chk.merge(part)
+    chk.expect('executions', len(units))
     chk.assumptions = ["torch.randn streams with distinct seeds are independent standard normals (PyTorch/NumPy "
                        "SeedSequence are the trusted base); the check models 'same seed <=> same variable'",
                        "Gaussianity follows from linearity in the labels (rows are exact linear maps)"]
